@@ -104,6 +104,25 @@ pub fn entries() -> Vec<Entry> {
 		en.good = "\tstruct MyKey;".into();
 		v.push(en);
 	}
+	{
+		// a user type that merely *claims* (through a safe std trait) to contain a key must not be usable as one
+		let forged = "struct Forged;\nimpl std::borrow::Borrow<ThreadKey> for Forged { fn borrow(&self) -> &ThreadKey { unreachable!() } }\nimpl std::borrow::BorrowMut<ThreadKey> for Forged { fn borrow_mut(&mut self) -> &mut ThreadKey { unreachable!() } }\nimpl AsMut<ThreadKey> for Forged { fn as_mut(&mut self) -> &mut ThreadKey { unreachable!() } }\nimpl AsRef<ThreadKey> for Forged { fn as_ref(&self) -> &ThreadKey { unreachable!() } }\nimpl std::ops::Deref for Forged { type Target = ThreadKey; fn deref(&self) -> &ThreadKey { unreachable!() } }\nimpl std::ops::DerefMut for Forged { fn deref_mut(&mut self) -> &mut ThreadKey { unreachable!() } }\nimpl From<Forged> for Option<ThreadKey> { fn from(_: Forged) -> Self { None } }\n";
+		for (recv, bad, good) in [
+			("Mutex::scoped_lock(Forged)", "\tlet m = Mutex::new(1); m.scoped_lock(Forged, |d| *d += 1);", "\tlet m = Mutex::new(1); m.scoped_lock(ThreadKey::get().unwrap(), |d| *d += 1);"),
+			("Mutex::scoped_lock(&mut Forged)", "\tlet m = Mutex::new(1); let mut f = Forged; m.scoped_lock(&mut f, |d| *d += 1);", "\tlet m = Mutex::new(1); let mut f = ThreadKey::get().unwrap(); m.scoped_lock(&mut f, |d| *d += 1);"),
+			("RwLock::scoped_read(Forged)", "\tlet m = RwLock::new(1); m.scoped_read(Forged, |d| use_ref(d));", "\tlet m = RwLock::new(1); m.scoped_read(ThreadKey::get().unwrap(), |d| use_ref(d));"),
+			("LockCollection::scoped_lock(Forged)", "\tlet c = LockCollection::new([Mutex::new(1)]); c.scoped_lock(Forged, |d| use_ref(&d));", "\tlet c = LockCollection::new([Mutex::new(1)]); c.scoped_lock(ThreadKey::get().unwrap(), |d| use_ref(&d));"),
+			("Retrying::scoped_try_lock(Forged)", "\tlet c = RetryingLockCollection::new([Mutex::new(1)]); let _ = c.scoped_try_lock(Forged, |d| use_ref(&d));", "\tlet c = RetryingLockCollection::new([Mutex::new(1)]); let _ = c.scoped_try_lock(ThreadKey::get().unwrap(), |d| use_ref(&d));"),
+			("Poisonable::scoped_lock(Forged)", "\tlet c = Poisonable::new(Mutex::new(1)); c.scoped_lock(Forged, |d| use_ref(&d));", "\tlet c = Poisonable::new(Mutex::new(1)); c.scoped_lock(ThreadKey::get().unwrap(), |d| use_ref(&d));"),
+			("Mutex::scoped_lock(Box<ThreadKey>)", "\tlet m = Mutex::new(1); m.scoped_lock(Box::new(ThreadKey::get().unwrap()), |d| *d += 1);", "\tlet m = Mutex::new(1); m.scoped_lock(*Box::new(ThreadKey::get().unwrap()), |d| *d += 1);"),
+			("Mutex::scoped_lock(Option<ThreadKey>)", "\tlet m = Mutex::new(1); m.scoped_lock(ThreadKey::get(), |d| *d += 1);", "\tlet m = Mutex::new(1); m.scoped_lock(ThreadKey::get().unwrap(), |d| *d += 1);"),
+			("Mutex::lock(Forged.into())", "\tlet m = Mutex::new(1); let g = m.lock(Forged);", "\tlet m = Mutex::new(1); let g = m.lock(ThreadKey::get().unwrap());"),
+		] {
+			let mut en = e("C14", "forge-key-through-safe-conversion-trait", recv, "", bad, good, "", &["E0277", "E0308"]);
+			en.items = forged.to_string();
+			v.push(en);
+		}
+	}
 	v.push(e("C14", "key-of-other-type-as-key", "&ThreadKey", keyo, "\tlet m = Mutex::new(1); m.scoped_lock(&key, |d| *d += 1);", "\tlet m = Mutex::new(1); m.scoped_lock(key, |d| *d += 1);", "", &["E0277"]));
 
 	for (recv, bad, good) in [
